@@ -90,7 +90,11 @@ Preds1 ==
           Not(InX(np, ListX(<<Lit(VInt(2)), Lit(VStr("a"))>>))),
           Lit(VBool(TRUE)), Lit(VBool(FALSE)), Lit(VNull), Cmp("=", Lit(VInt(2)), Lit(VFlt(4))),
           Or(Cmp("=", np, Lit(VInt(1))), Cmp("=", np, Lit(VStr("a")))), And(Cmp(">=", np, Lit(VInt(1))), Cmp("<", np, Lit(VFlt(4)))),
-          And(Cmp("<", np, Lit(VInt(2))), Lit(VNull)), Or(Cmp("<", np, Lit(VInt(2))), Lit(VNull))}
+          And(Cmp("<", np, Lit(VInt(2))), Lit(VNull)), Or(Cmp("<", np, Lit(VInt(2))), Lit(VNull)),
+          \* a literal (parameter slot) as the LEFT operand of a connective, also under NOT where null and false differ
+          And(Lit(VNull), Cmp("<", np, Lit(VInt(2)))), Not(And(Lit(VNull), Cmp("<", np, Lit(VInt(2))))),
+          Not(Or(Lit(VNull), Cmp("<", np, Lit(VInt(2))))), Not(And(Lit(VBool(TRUE)), Cmp("<", np, Lit(VInt(2))))),
+          Or(Lit(VBool(FALSE)), Cmp("=", np, Lit(VInt(1))))}
 Preds2 ==
     {Cmp("=", np, nq), Cmp("<", np, nq), Cmp("<>", np, nq),
      And(Cmp("=", np, Lit(VInt(2))), Cmp("=", nq, Lit(VInt(1)))), Or(Cmp("=", np, Lit(VInt(2))), Cmp("=", nq, Lit(VInt(1)))),
@@ -111,7 +115,10 @@ FamScanI ==
     \cup {Q1(<<Match(<<Path0(NP("n", <<>>, <<>>))>>, NoX), Ret(its)>>) :
              its \in {<<Item(np, "")>>, <<Item(np, "a")>>, <<Item(np, "a"), Item(nq, "b")>>, <<Item(Var("n"), "x"), Item(nq, "")>>,
                       <<Item(Cmp("=", np, Lit(VInt(2))), "t")>>, <<Item(IsNullX(np), "t")>>, <<Item(Cmp("<", np, nq), "t")>>,
-                      <<Item(Lit(VInt(1)), "one"), Item(np, "")>>, <<Item(Or(IsNullX(np), Cmp("=", nq, Lit(VInt(1)))), "t")>>}}
+                      <<Item(Lit(VInt(1)), "one"), Item(np, "")>>, <<Item(Or(IsNullX(np), Cmp("=", nq, Lit(VInt(1)))), "t")>>,
+                      <<Item(And(Lit(VNull), Cmp("=", np, Lit(VInt(2)))), "t"), Item(np, "")>>,
+                      <<Item(Or(Lit(VNull), Cmp("=", np, Lit(VInt(2)))), "t"), Item(np, "")>>,
+                      <<Item(And(Lit(VBool(TRUE)), IsNullX(np)), "t")>>}}
 
 \* stage 2: one-hop and two-hop patterns: directions, types, relationship variables, self-loops, multi-edges,
 \* relationship isomorphism, repeated variables, several paths
@@ -141,6 +148,11 @@ FamHopD ==
           Q1(<<Match(<<Path1(a0, RP("r", <<>>, "both", <<>>), b0)>>, NoX), Ret(<<Item(CStar, "c")>>)>>),
           Q1(<<Match(<<Path1(a0, RP("r", <<"T">>, "out", <<>>), b0)>>, NoX), Ret(<<Item(Agg("count", Var("r"), FALSE), "c")>>)>>),
           Q1(<<Match(<<Path1(a0, RP("", <<>>, "out", <<>>), b0)>>, NoX), Ret(<<Item(Var("a"), ""), Item(Agg("count", Var("b"), FALSE), "c")>>)>>)}
+\* two-hop paths whose MIDDLE node carries the rarer label: a cost-based planner anchors the path there and walks
+\* both ways, and relationship isomorphism must still hold across the anchor (one relationship cannot serve both hops)
+FamHop2L ==
+    {Q1(<<Match(<<Path2(NP("a", <<"A">>, <<>>), RP("", <<>>, d1, <<>>), NP("h", lh, <<>>), RP("", <<>>, d2, <<>>), NP("c", <<"A">>, <<>>))>>, NoX),
+          Ret(<<Item(Var("a"), ""), Item(Var("h"), ""), Item(Var("c"), "")>>)>>) : lh \in {<<"B">>, <<>>}, d1 \in Dirs, d2 \in Dirs}
 aA == NP("a", <<"A">>, <<>>)
 bA == NP("b", <<"A">>, <<>>)
 ap == Prop("a", "p")
@@ -385,6 +397,7 @@ FamOf(fm) ==
       [] fm = "opt" -> FamOpt
       [] fm = "ord" -> FamOrd
       [] fm = "ord2" -> FamOrd2
+      [] fm = "hop2L" -> FamHop2L
       [] fm = "with" -> FamWith
       [] fm = "withHop" -> FamWithHop
       [] fm = "unwind" -> FamUnwind
@@ -400,6 +413,7 @@ L0 == {{}}
 LA == {{}, {"A"}}
 LOA == {{"A"}}
 L4 == {{}, {"A"}, {"B"}, {"A", "B"}}
+LAB1 == {{"A"}, {"B"}}
 FC(name, fam, maxn, maxr, labels, p, qq, r, types) ==
     [name |-> name, fam |-> fam, maxn |-> maxn, maxr |-> maxr, labels |-> labels, p |-> p, q |-> qq, r |-> r, types |-> types]
 \* quick: every graph with <= 2 nodes / <= 2 relationships over the value sets named, per clause family
@@ -411,6 +425,7 @@ QuickTable ==
      FC("hopD", "hopD", 2, 2, L0, "none", "none", "none", {"T"}),
      FC("hopD2", "hopD", 2, 1, L0, "none", "none", "none", {"T", "U"}),
      FC("hopP", "hopP", 2, 1, LA, "one", "none", "one", {"T"}),
+     FC("hop2L", "hop2L", 3, 2, LAB1, "none", "none", "none", {"T"}),
      FC("agg", "agg", 2, 0, L0, "num", "one", "none", {"T"}),
      FC("aggM", "agg", 2, 0, L0, "mixed", "none", "none", {"T"}),
      FC("sum", "sum", 2, 0, LA, "num", "one", "none", {"T"}),
@@ -433,6 +448,7 @@ ThoroughTable ==
      FC("hopD", "hopD", 2, 2, L0, "none", "none", "none", {"T", "U"}),
      FC("hopD3", "hopD", 3, 2, L0, "none", "none", "none", {"T"}),
      FC("hopP", "hopP", 2, 2, LA, "one", "none", "one", {"T"}),
+     FC("hop2L", "hop2L", 3, 3, LAB1, "none", "none", "none", {"T"}),
      FC("agg", "agg", 2, 0, L0, "mixed", "one", "none", {"T"}),
      FC("agg3", "agg", 3, 0, L0, "num", "none", "none", {"T"}),
      FC("sum", "sum", 2, 0, LA, "num", "one", "none", {"T"}),
@@ -481,7 +497,7 @@ DoDelNode == HistOn /\ \E h \in LiveN(G) : G' = DelNode(G, h) /\ H([op |-> "Dele
 DoDelRel == HistOn /\ \E r \in LiveR(G) : G' = DelRel(G, r) /\ H([op |-> "DeleteRel", r |-> r]) /\ UNCHANGED <<q, fc>>
 DoSetNodeProp ==
     HistOn /\ \E h \in LiveN(G), v \in ValSet(fc.p) \ {VNull} :
-        /\ G.nodes[h].props.p # v
+        \* (also a write of the value the node already holds: logically a no-op, physically an index update)
         /\ G' = [G EXCEPT !.nodes[h].props.p = v] /\ H([op |-> "SetNodeProp", n |-> h, key |-> "p", v |-> v]) /\ UNCHANGED <<q, fc>>
 DoRemoveNodeProp ==
     HistOn /\ \E h \in LiveN(G) :
